@@ -1,8 +1,10 @@
 package jsonrpc2
 
 import (
+	"bytes"
 	"encoding/json"
 	"io"
+	"io/ioutil"
 
 	"github.com/vipnode/vipnode/v2/internal/pretty"
 )
@@ -33,6 +35,10 @@ func IOCodec(rwc io.ReadWriteCloser) *jsonCodec {
 type jsonCodec struct {
 	rwc        io.ReadWriteCloser
 	remoteAddr string
+
+	// readAhead holds the bytes that were read from rwc beyond the last
+	// message that was returned.
+	readAhead []byte
 }
 
 func (codec *jsonCodec) RemoteAddr() string {
@@ -41,7 +47,13 @@ func (codec *jsonCodec) RemoteAddr() string {
 
 func (codec *jsonCodec) ReadMessage() (*Message, error) {
 	var msg Message
-	err := json.NewDecoder(codec.rwc).Decode(&msg)
+	// Continue with what was already read from the stream, otherwise messages
+	// that arrive together with the previous one would be lost.
+	pending := bytes.NewReader(codec.readAhead)
+	dec := json.NewDecoder(io.MultiReader(pending, codec.rwc))
+	err := dec.Decode(&msg)
+	buffered, _ := ioutil.ReadAll(dec.Buffered())
+	codec.readAhead = append(buffered, codec.readAhead[len(codec.readAhead)-pending.Len():]...)
 	return &msg, err
 }
 
